@@ -157,6 +157,32 @@ A7         == IF Thorough THEN 0..6 ELSE {1}
 B7         == IF Thorough THEN 0..6 ELSE {0, 3}
 BC7(a, b, c, d) == Fv([i \in 1..8 |-> ((a * i * i * i + b * i * i + c * i + d) % 7) - 3])
 
+(* HIGH degrees ("all curve degrees n"): the general machinery above needs n! / T^n in 32 bits, so degrees 16..30 use
+   polygons whose Bernstein polynomial has a closed form with small numbers -- the scaled basis polygon 3 e_k
+   (value 3 C(n,k) s^k (1-s)^(n-k): 3 C(n,k) / 2^n at s = 1/2, P_0 at s = 0, P_n at s = 1) and the alternating polygon
+   +3, -3, ... (value 3 (1 - 2 s)^n: 0 at s = 1/2).  HighLawSmall checks the closed forms against Bern / DeCasteljau /
+   the monomial form on every degree where those fit (1..7).  Such degrees are where an evaluation scheme that is
+   algebraically the Bernstein polynomial but numerically something else (power basis, Horner on derivatives) fails. *)
+RECURSIVE PRowBig(_)
+PRowBig(n) == IF n = 0 THEN <<1>>
+              ELSE LET p == PRowBig(n - 1) IN Fv([k \in 1..(n + 1) |-> (IF k > 1 THEN p[k - 1] ELSE 0) + (IF k <= n THEN p[k] ELSE 0)])
+RECURSIVE Pow2(_)
+Pow2(n) == IF n = 0 THEN 1 ELSE 2 * Pow2(n - 1)
+HighN == IF Thorough THEN {12, 16, 24, 30} ELSE {16, 24}
+BasisRow(n, k) == Fv([i \in 1..(n + 1) |-> IF i = k + 1 THEN 3 ELSE 0])
+AltRow(n)      == Fv([i \in 1..(n + 1) |-> IF i % 2 = 1 THEN 3 ELSE -3])
+HighRow(n, k)  == IF k < 0 THEN AltRow(n) ELSE BasisRow(n, k)
+HighVal(n, k, c) ==            \* c: "0" (t = 0), "half" (t = T/2), "T" (t = T)
+    LET P == HighRow(n, k) IN
+    IF c = "0" THEN RI(P[1]) ELSE IF c = "T" THEN RI(P[n + 1])
+    ELSE IF k < 0 THEN R0 ELSE RN(3 * PRowBig(n)[k + 1], Pow2(n))
+HighTime(T, c) == IF c = "0" THEN R0 ELSE IF c = "T" THEN T ELSE RMul(<<1,2>>, T)
+ASSUME \A n \in 1..7 : PRowBig(n) = Pascal[n + 1]
+ASSUME \A n \in 1..7 : \A k \in (-1)..n, T \in {<<1,1>>, <<5,2>>}, c \in {"0", "half", "T"} :         \* HighLawSmall
+          LET P == RV(HighRow(n, k)) IN /\ HighVal(n, k, c) = Bern(P, T, HighTime(T, c))
+                                        /\ HighVal(n, k, c) = DeCasteljau(P, T, HighTime(T, c))
+                                        /\ HighVal(n, k, c) = MonoD(Mono(P), T, HighTime(T, c), 0)
+
 (* ------------------------------ test vectors ------------------------------ *)
 EvalVec(n, P, T, t, m) ==
     [op |-> "eval", n |-> n, dim |-> Len(P), P |-> P, T |-> T, t |-> t, m |-> m,
@@ -175,6 +201,7 @@ RowsVec(n, T) == [op |-> "bcrows", n |-> n, T |-> T, M |-> BCM(n, T)]
 Init ==
     \/ \E n \in 0..7, T \in Ts, s \in EvalSeeds : tv = [op |-> "seed_eval", n |-> n, T |-> T, s |-> s]
     \/ \E n \in 1..2, T \in SmallTs, s \in {5, 100} : tv = [op |-> "seed_eval_small", n |-> n, T |-> T, s |-> s]
+    \/ \E n \in HighN, T \in Ts : \E k \in {-1, 0, 1, n \div 2, n - 1, n} : tv = [op |-> "seed_eval_high", n |-> n, T |-> T, k |-> k]
     \/ \E n \in {3, 7}, T \in Ts, s \in TrajSeeds : tv = [op |-> "seed_traj", n |-> n, T |-> T, s |-> s]
     \/ \E T \in Ts, s \in MultiSeeds : tv = [op |-> "seed_multi", T |-> T, s |-> s]
     \/ \E T \in Ts, p0 \in V3, v0 \in V3 : tv = [op |-> "seed_solve3", T |-> T, w0 |-> <<p0, v0>>]
@@ -187,6 +214,10 @@ Next ==
        /\ \E t \in Times(tv.T), m \in 0..tv.n : tv' = EvalVec(tv.n, Poly(tv.n, tv.s), tv.T, t, m)
     \/ /\ tv.op = "seed_eval_small"
        /\ \E t \in FracTimes(tv.T), m \in 0..1 : tv' = EvalVec(tv.n, Poly(tv.n, tv.s), tv.T, t, m)
+    \/ /\ tv.op = "seed_eval_high"
+       /\ \E c \in {"0", "half", "T"} :
+             tv' = [op |-> "eval", n |-> tv.n, dim |-> 1, P |-> <<HighRow(tv.n, tv.k)>>, T |-> tv.T, t |-> HighTime(tv.T, c), m |-> 0,
+                    exp |-> <<HighVal(tv.n, tv.k, c)>>]
     \/ /\ tv.op = "seed_traj"
        /\ \E t \in Times(tv.T) : tv' = TrajVec(tv.n, Row(tv.n, tv.s, 1), tv.T, t)
     \/ /\ tv.op = "seed_multi"
@@ -225,7 +256,8 @@ RowsLaw(p, T, t, e) == /\ \A m1 \in 1..Len(e) : RowLaw(p, T, t, m1 - 1, e[m1])
 
 EvalLaw  == tv.op = "eval" => /\ tv.m <= tv.n /\ tv.dim = Len(tv.P) /\ tv.T[1] > 0
                               /\ \A r \in 1..tv.dim : /\ Len(tv.P[r]) = tv.n + 1
-                                                      /\ RowLaw(tv.P[r], tv.T, tv.t, tv.m, tv.exp[r])
+                                                      /\ (tv.n <= 7 => RowLaw(tv.P[r], tv.T, tv.t, tv.m, tv.exp[r]))
+                                                      /\ (tv.n > 7 => RNorm(tv.exp[r]) /\ tv.m = 0)
 TrajLaw  == tv.op = "traj" => /\ Len(tv.P) = tv.n + 1 /\ Len(tv.exp) = (IF tv.n = 3 THEN 3 ELSE 5)
                               /\ RowsLaw(tv.P, tv.T, tv.t, tv.exp)
 MultiLaw == tv.op = "multirotor" =>
